@@ -176,6 +176,12 @@ class BandwidthLimitedStream:
             except RequestExceededException as e:
                 self._time_utils.sleep(e.retry_time)
         else:
+            # The transfer failed or was cancelled, so a consumption request
+            # that is still scheduled will never be retried. Give its share
+            # of the wait time back so that other requests do not wait for it.
+            self._leaky_bucket.cancel_scheduled_consumption(
+                self._request_token
+            )
             raise self._transfer_coordinator.exception
 
     def signal_transferring(self):
@@ -275,6 +281,19 @@ class LeakyBucket:
                 )
             else:
                 return self._release_requested_amt(amt, time_now)
+
+    def cancel_scheduled_consumption(self, request_token):
+        """Cancel a scheduled consumption request that will not be retried
+
+        :type request_token: RequestToken
+        :param request_token: The token associated to the consumption
+            request that was scheduled by a RequestExceededException.
+        """
+        with self._lock:
+            if self._consumption_scheduler.is_scheduled(request_token):
+                self._consumption_scheduler.process_scheduled_consumption(
+                    request_token
+                )
 
     def _projected_to_exceed_max_rate(self, amt, time_now):
         projected_rate = self._rate_tracker.get_projected_rate(amt, time_now)
